@@ -182,7 +182,7 @@ NEEDS_ENV = {"track_and_groundspeed", "get_observer_coords", "haversine"}
 NEEDS_NOW = {"now"}
 
 # long methods emitted as one definition per top-level block
-SPLIT = {"Plane.update_from_mode_s"}
+SPLIT = {"Plane.update_from_mode_s", "Mds.update"}
 
 LOG_MACROS = {"debug", "info", "warn", "error", "trace", "println", "print", "eprintln"}
 
@@ -250,6 +250,12 @@ class FnTr:
                 if ty[0] != "opt":
                     raise TErr(f"Some pattern against {ty}")
                 return "some " + par(self.pat(p[2][0], ty[1], env))
+            en = self.enum_variant(p[1], ty)
+            if en is not None:
+                vname, vtys = en
+                if len(vtys) != len(p[2]):
+                    raise TErr("enum pattern arity")
+                return f".{vname} " + " ".join(par(self.pat(q, t, env)) for q, t in zip(p[2], vtys))
             raise TErr(f"tuple-struct pattern {p[1]}")
         if k == "p_path":
             if p[1][-1] == "None":
@@ -259,6 +265,18 @@ class FnTr:
             txt, _ = self.tr(p[1], env, ty)
             return txt
         raise TErr(f"pattern {k}")
+
+    def enum_variant(self, segs, ty):
+        """(variant name, payload types) if `segs` names a variant of the enum type `ty`"""
+        if ty is None or ty[0] != "struct":
+            return None
+        st = self.ctx.structs.get(ty[1])
+        if st is None or not getattr(st, "variants", None):
+            return None
+        for v, tys in st.variants:
+            if v == segs[-1]:
+                return v, [rty(t, st.name) for t in tys]
+        return None
 
     def pat_is_binding(self, p):
         k = p[0]
@@ -615,6 +633,13 @@ class FnTr:
         if segs[-2:] == ["char", "from_u32"]:
             t, _ = self.tr(args[0], env, NAT())
             return f"some (Char.ofNat {par(t)})", OPT(CHAR)
+        # enum constructor Enum::Variant(args)
+        if len(segs) >= 2 and segs[-2] in self.ctx.structs and getattr(self.ctx.structs[segs[-2]], "variants", None):
+            en = self.enum_variant(segs, ("struct", segs[-2]))
+            if en is not None:
+                vname, vtys = en
+                parts = [par(self.tr(a, env, t)[0]) for a, t in zip(args, vtys)]
+                return f"T.{segs[-2]}.{vname} " + " ".join(parts), ("struct", segs[-2])
         # associated function Type::f
         if len(segs) >= 2 and segs[-2][0].isupper():
             tyname = segs[-2] if segs[-2] != "Self" else self.fn.impl_of
@@ -862,6 +887,8 @@ class FnTr:
             return "(" + ", ".join(self.match_pat(q, t, env) for q, t in zip(p[1], tys)) + ")"
         if k == "p_ts" and p[1][-1] == "Some":
             return "some " + par(self.match_pat(p[2][0], ty[1], env))
+        if k == "p_ts" and p[1][-1] == "Ok":
+            return "some " + par(self.match_pat(p[2][0], ty[1], env))
         if k == "p_or":
             return " | ".join(self.match_pat(q, ty, env) for q in p[1])
         return self.pat(p, ty, env)
@@ -911,12 +938,35 @@ class FnTr:
                 if rty_ and rty_[0] == "struct":
                     key = self.method_key(rty_[1], node[2], node[3], env)
                     sig = self.ctx.sigs.get(key)
+                    if sig is None:
+                        # the argument may be bound by a pattern further in: any `&mut self` impl of that name counts
+                        cands = [v for k2, v in self.ctx.sigs.items() if k2.startswith(f"{rty_[1]}.{node[2]}<")]
+                        if any(c[3] == "mut" for c in cands) and node[1][0] == "path":
+                            acc.add(root)
                     if sig and sig[3] == "mut" and node[1][0] == "path":
                         acc.add(root)
                 if node[2] == "clone_from":
                     self.lhs_roots(node[1], acc)
         for x in node[1:]:
             self.assigned(x, acc, env)
+
+    def has_opaque_call(self, node):
+        if isinstance(node, tuple):
+            if node and node[0] == "closure":
+                return False
+            if node and node[0] == "macro":
+                return node[1] not in LOG_MACROS and node[1] != "matches"
+            if node and node[0] == "mcall" and node[2] not in ("is_some", "is_none", "contains", "len", "unwrap_or", "is_some_and"):
+                return True
+            if node and node[0] == "call":
+                f = node[1]
+                name = f[1][-1] if f[0] == "path" else None
+                if name not in self.ctx.sigs and name not in BUILTIN_FNS and name not in ("Some", "Ok", "Err"):
+                    return True
+            return any(self.has_opaque_call(x) for x in node)
+        if isinstance(node, list):
+            return any(self.has_opaque_call(x) for x in node)
+        return False
 
     def root_var(self, e):
         while e[0] in ("field", "index", "paren", "unary"):
@@ -1013,7 +1063,12 @@ class FnTr:
                 pt = self.pat(pat, ity[1], env2)
                 return f"match {inner} with\n| none => none\n| some {par(pt)} => {par_block(cont(env2))}"
             if self.contains_try(init):
-                raise TErr("`?` inside a let initialiser")
+                if self.ret[0] != "opt":
+                    raise TErr("`?` outside an Option / Result function")
+                ot, oty = self.tr_opt(init, env, dty)
+                env2 = dict(env)
+                pt = self.pat(pat, dty or oty, env2)
+                return f"match {ot} with\n| none => none\n| some {par(pt)} => {par_block(cont(env2))}"
             acc = set()
             self.assigned(init, acc, env)
             acc = [v for v in sorted(acc) if v in env or v == "self"]
@@ -1159,6 +1214,69 @@ class FnTr:
             out = f"(match {it} with | none => none | some {v} => {out})"
         return out
 
+    def tr_opt(self, e, env, expect=None):
+        """an expression containing `?`: Lean term of type Option τ (none = the function returns early with None/Err)"""
+        if not self.contains_try(e):
+            t, ty = self.tr(e, env, expect)
+            return f"some {par(t)}", ty
+        k = e[0]
+        if k == "paren":
+            return self.tr_opt(e[1], env, expect)
+        if k == "try":
+            t, ty = self.tr(e[1], env)
+            if ty[0] != "opt":
+                raise TErr("`?` on a non-Option")
+            return t, ty[1]
+        if k == "match":
+            box = {}
+            def arm(body, env2):
+                if body[0] == "block":
+                    if body[1]:
+                        raise TErr("`?` inside a block with statements")
+                    body = body[2]
+                t, ty = self.tr_opt(body, env2, expect)
+                box["ty"] = ty
+                return t, OPT(ty)
+            t, _ = self.tr_match(e, env, None, arm_tr=arm)
+            return t, box.get("ty", expect)
+        if k == "if":
+            if self.contains_try(e[1]) or e[3] is None:
+                raise TErr("`?` in an if condition of a value")
+            c = self.cond(e[1], env)
+            a, ta = self.tr_opt(e[2][2] if e[2][0] == "block" and not e[2][1] else e[2], env, expect)
+            b, _ = self.tr_opt(e[3][2] if e[3][0] == "block" and not e[3][1] else e[3], env, expect)
+            return f"(if {c} then {a} else {b})", ta
+        # straight-line expression: hoist the `?` sub-expressions left to right
+        tries = []
+        def hoist(n):
+            if isinstance(n, tuple):
+                if n and n[0] == "try":
+                    v = self.fresh("q")
+                    tries.append((v, n[1]))
+                    return ("path", [v])
+                if n and n[0] in ("closure", "macro"):
+                    return n
+                if n and n[0] in ("match", "if", "iflet", "block") and self.contains_try(n):
+                    raise TErr("`?` inside nested control flow")
+                return tuple(hoist(x) for x in n)
+            if isinstance(n, list):
+                return [hoist(x) for x in n]
+            return n
+        e2 = hoist(e)
+        env2 = dict(env)
+        wraps = []
+        for v, inner in tries:
+            it, ity = self.tr(inner, env2)
+            if ity[0] != "opt":
+                raise TErr("`?` on a non-Option")
+            env2[v] = ity[1]
+            wraps.append((v, it))
+        t, ty = self.tr(e2, env2, expect)
+        out = f"some {par(t)}"
+        for v, it in reversed(wraps):
+            out = f"(match {it} with | none => none | some {v} => {out})"
+        return out, ty
+
     def tr_assign(self, e, env, cont):
         _, lhs, op, rhs = e
         if op != "=":
@@ -1232,7 +1350,9 @@ class FnTr:
             # branches may leave the function: the rest of the function is the continuation of every branch
             return self.branches(e, env, cont, allow_return)
         if not acc:
-            # pure statement without effect (e.g. an if whose body only logs)
+            # pure statement without effect (e.g. an if whose body only logs): nothing in it may be a call we cannot see through
+            if self.has_opaque_call(e):
+                raise TErr("statement without visible effect contains a call whose effect is unknown")
             return cont(env)
         st = self.state_tuple(acc)
         fin = lambda env2: st
@@ -1425,12 +1545,14 @@ TRANSLATE = [
 ]
 
 TRANSLATE_PLANE = [
-    ("src/decoder/downlink/short.rs", ["Srt.new", "Srt.update"]),
+    ("src/decoder/downlink/short.rs", ["Srt.new", "Srt.update", "Srt.from_message"]),
     ("src/decoder/downlink/extended/ext.rs", ["Ext.new"]),
     ("src/decoder/downlink/extended/update.rs", ["Ext.update_mt_1_4", "Ext.update_mt_5_18", "Ext.update_mt_19", "Ext.update_mt_20_22",
-                                                 "Ext.update_mt_31", "Ext.update"]),
-    ("src/decoder/downlink/mode_s.rs", []),
-    ("src/decoder/plane.rs", ["Plane.new", "Plane.from_message"]),
+                                                 "Ext.update_mt_31", "Ext.update", "Ext.from_message"]),
+    ("src/decoder/downlink/mode_s.rs", ["Mds.new", "Mds.update", "Mds.from_message"]),
+    ("src/decoder/downlink/dfs.rs", ["DF.from_message"]),
+    ("src/decoder/plane/from_downlink.rs", ["Plane.update_from_downlink<DF>"]),
+    ("src/decoder/plane.rs", ["Plane.new", "Plane.from_message", "Plane.from_downlink"]),
     ("src/decoder/plane/update_position.rs", ["Plane.update_position"]),
     ("src/decoder/plane/from_squitter.rs", ["Plane.update"]),
     ("src/decoder/plane/from_squitter/from_bcast.rs", ["Plane.update_from_bcast"]),
@@ -1449,7 +1571,7 @@ TRANSLATE_PLANE = [
 PLANS = [
     ("Trans.lean", "import SqModel.Model.RustPrim", TRANSLATE,
      ["Capability", "SelectedVerticalIntention", "TrackAndTurn", "HeadingAndSpeed", "Meteo"]),
-    ("TransPlane.lean", "import SqModel.Generated.Trans", TRANSLATE_PLANE, ["Srt", "Ext", "Mds", "Plane"]),
+    ("TransPlane.lean", "import SqModel.Generated.Trans", TRANSLATE_PLANE, ["Srt", "Ext", "Mds", "DF", "Plane"]),
 ]
 
 
@@ -1499,13 +1621,13 @@ NOT_TRANSLATED = {
     "src/decoder/ehs/base.rs": ("track_and_groundspeed",),
     "src/decoder/bds/bds_1_7.rs": ("default",), "src/decoder/bds/bds_4_0.rs": ("default",), "src/decoder/bds/bds_5_0.rs": ("default",),
     "src/decoder/bds/bds_6_0.rs": ("default",), "src/decoder/bds/bds_4_4.rs": ("default",),
-    "src/decoder/downlink/short.rs": ("default", "fmt", "from_message", "icao"),
+    "src/decoder/downlink/short.rs": ("default", "fmt", "icao"),
     "src/decoder/downlink/extended/ext.rs": ("default",),
-    "src/decoder/downlink/extended/update.rs": ("from_message", "icao"),
-    "src/decoder/downlink/mode_s.rs": ("default", "new", "fmt", "from_message", "update", "icao"),
-    "src/decoder/plane.rs": ("default", "fmt", "from_downlink"),
+    "src/decoder/downlink/extended/update.rs": ("icao",),
+    "src/decoder/downlink/mode_s.rs": ("default", "fmt", "icao"),
+    "src/decoder/downlink/dfs.rs": ("fmt", "log", "update", "icao"),
+    "src/decoder/plane.rs": ("default", "fmt"),
     "src/decoder/plane/update_position.rs": ("degrees_to_radians", "haversine"),
-    "src/decoder/plane/from_downlink.rs": ("update_from_downlink",),
 }
 
 
@@ -1643,6 +1765,12 @@ def translate_sort(ctx, repo):
 
 
 def emit_struct(st):
+    if getattr(st, "variants", None):
+        lines = [f"inductive T.{st.name} where"]
+        for v, tys in st.variants:
+            args = " ".join(f"(v{i} : {lty(rty(t, st.name))})" for i, t in enumerate(tys))
+            lines.append(f"  | {v} {args}".rstrip())
+        return "\n".join(lines)
     lines = [f"structure T.{st.name} where"]
     for f, t in st.fields:
         lines.append(f"  {lname(f)} : {lty(rty(t, st.name))}")
